@@ -48,6 +48,9 @@ pub fn run(env: &mut Env) -> Outcome {
         let mut cfg = ClientCfg::plain();
         cfg.nla = ctx.chance("use_nla", 1, 2);
         cfg.check_cert = ctx.chance("check_cert", 1, 2);
+        cfg.restricted = ctx.chance("restricted", 1, 4);
+        cfg.blank = ctx.chance("blank", 1, 4);
+        cfg.builder_order = ctx.choose("builder_order", 3) as u8;
         cfg.password = "C02-secret-passw0rd".to_string();
         let mask: u32 = if direct {
             match ctx.choose("mask_c", 8) { 0 => 1, 1 => 3, 2 => 0, 3 => 2, 4 => 8, 5 => 0xb, 6 => 9, _ => ctx.choose("mask_v", 16) as u32 }
@@ -115,9 +118,9 @@ pub fn run(env: &mut Env) -> Outcome {
         let r = guard(|| {
             let t = tpkt::Client::new(Link::new(Stream::Raw(end)));
             if use_auth {
-                x224::Client::connect(t, mask, check_cert, Some(&mut auth), false, false).map(|_| ())
+                x224::Client::connect(t, mask, check_cert, Some(&mut auth), cfg.restricted, cfg.blank).map(|_| ())
             } else {
-                x224::Client::connect(t, mask, check_cert, None, false, false).map(|_| ())
+                x224::Client::connect(t, mask, check_cert, None, cfg.restricted, cfg.blank).map(|_| ())
             }
         });
         result = match r {
@@ -127,7 +130,20 @@ pub fn run(env: &mut Env) -> Outcome {
         };
         ctxrc.borrow_mut().ev("drv", format!("x224 connect mask={:#x} auth={} -> {:?}", mask, use_auth, result));
     } else {
-        let s = match Session::connect(world_clone(&world), &cfg) {
+        let mut connector = cfg.connector();
+        // history on the same Connector: earlier attempts that the server answered with a negotiation failure
+        let failures = { let mut c = ctxrc.borrow_mut(); if c.chance("earlier_failures_same_connector", 1, 4) { 1 + c.choose("n_earlier_failures", 3) } else { 0 } };
+        for _ in 0..failures {
+            let mut fp = ServerParams::default_for(1);
+            fp.cc_kind = CcKind::Failure(*ctxrc.borrow_mut().pick("earlier_fail_code", &[1u32, 2, 3, 5]));
+            let fworld = World::new(ctxrc.clone(), fp, crate::wire::NetCfg::benign());
+            match Session::connect_with(fworld, &cfg, &mut connector) {
+                Ok(_) => {}
+                Err(o) => return o,
+            }
+            ctxrc.borrow_mut().probe("earlier_negotiation_failure_same_connector");
+        }
+        let s = match Session::connect_with(world_clone(&world), &cfg, &mut connector) {
             Ok(s) => s,
             Err(o) => return o,
         };
@@ -137,6 +153,11 @@ pub fn run(env: &mut Env) -> Outcome {
     world.pump();
     let srv = world.server.borrow();
     let wire = world.wire.borrow();
+    // what the client really put into its request (it must equal what the configuration implies)
+    let offered_on_wire = srv.client_requested;
+    if !srv.history.is_empty() && offered_on_wire != mask {
+        return viol("c02/offered-mask", &format!("configured={} sent={}", mask_class(mask), mask_class(offered_on_wire)), format!("the configuration implies requested protocols {:#x} but the connection request carries {:#x}", mask, offered_on_wire));
+    }
     let legit = kind == CcKind::Response && ((sel == 1 && mask & 1 != 0) || (sel == 2 && mask & 2 != 0) || (sel == 8 && mask & 8 != 0) || (sel == 0 && mask == 0));
     let cr_len = if wire.c2s_all.len() >= 4 { u16::from_be_bytes([wire.c2s_all[2], wire.c2s_all[3]]) as usize } else { 0 };
     let after_cr: &[u8] = if wire.c2s_all.len() > cr_len { &wire.c2s_all[cr_len..] } else { &[] };
